@@ -309,6 +309,7 @@ class Run(object):
         # implementation that wants real sequences may reject them with TypeError;
         # from then on the run passes lists instead
         self.gen_ok = True
+        self.bytes_ok = True  # likewise for bytes keys (sequences of small integers)
         self.universe = query_universe([dec_token(t) for t in config["alphabet"]], config["depth"])
         self.sweeps = 0
 
@@ -341,13 +342,19 @@ class Run(object):
         implementation rejects as not being a sequence is passed again as a list."""
         if form == "gen" and not self.gen_ok:
             form = "list"
-        if form != "gen":
+        if form == "bytes" and not self.bytes_ok:
+            form = "list"
+        if form not in ("gen", "bytes"):
             return fn(make_key(key, form))
         try:
-            return fn(make_key(key, "gen"))
+            return fn(make_key(key, form))
         except (TypeError, AttributeError):
-            self.gen_ok = False
-            self.stats.probe("one_shot_key_rejected")
+            if form == "gen":
+                self.gen_ok = False
+                self.stats.probe("one_shot_key_rejected")
+            else:
+                self.bytes_ok = False
+                self.stats.probe("bytes_key_rejected")
             return fn(make_key(key, "list"))
 
     def q_get(self, key, form, op):
@@ -773,6 +780,7 @@ PROBES = [
     "gen_form",
     "keyerror",
     "one_shot_key_rejected",
+    "bytes_key_rejected",
     "lmpv_strict_prefix_hit",
     "lmpv_longest_is_none",
     "iterators_interleaved",
